@@ -18,6 +18,8 @@ pub struct DetAlloc;
 const BASE: usize = 0x5000_0000_0000;
 const REGION: usize = 1 << 33; // 8 GiB of address space per region, never reserved
 const NREGIONS: usize = 24;
+/// no simulated thread may use more than this much of its region
+const CAP: usize = 1 << 30;
 
 static ON: AtomicBool = AtomicBool::new(false);
 #[allow(clippy::declare_interior_mutable_const)]
@@ -114,8 +116,8 @@ unsafe impl GlobalAlloc for DetAlloc {
             start = (off + align - 1) & !(align - 1);
             Some(start + l.size().max(1))
         });
-        if start + l.size() > REGION {
-            return std::ptr::null_mut();
+        if start + l.size() > CAP {
+            return std::ptr::null_mut(); // runaway allocation: abort the run process
         }
         (BASE + r * REGION + start) as *mut u8
     }
